@@ -110,10 +110,10 @@ fn later_ops(plan: &Plan, d: Dictionary, ctx: &mut Ctx) -> Result<Dictionary, St
     let none = Fault::default();
     let csv = plan.file("user2.csv").to_vec();
     let d = flat(load_user(d, &csv, &none, ctx))?;
-    let nl = d.verif_num_left() as u16;
-    let nr = d.verif_num_right() as u16;
-    let l: Vec<u16> = (1..nl).rev().collect();
-    let r: Vec<u16> = (1..nr).rev().collect();
+    let nl = d.verif_num_left();
+    let nr = d.verif_num_right();
+    let l: Vec<u16> = (1..nl).rev().map(|x| x as u16).collect();
+    let r: Vec<u16> = (1..nr).rev().map(|x| x as u16).collect();
     flat(map_ids(d, &l, &r))
 }
 
@@ -137,6 +137,7 @@ pub fn export(prop: &str, seed: u64, cases: std::ops::Range<u64>, dir: &str, say
     let mut n = 0;
     for case in cases {
         let plan = case_plan(prop, seed, case);
+        crate::hashseam::begin_plan(&plan);
         let pr = probes(&plan);
         for item in items(prop, &plan) {
             let base = format!("{dir}/{case}-{}", item.name);
@@ -156,8 +157,30 @@ pub fn export(prop: &str, seed: u64, cases: std::ops::Range<u64>, dir: &str, say
                 Ok(())
             })();
             if let Err(e) = r {
-                say(&format!("HARNESS-ERROR: xbuild export ({}) of case {case}/{}: {e}", build_label(), item.name));
-                return 2;
+                // a seeded valid world that cannot be compiled, written or observed by this build
+                // is a violation of the property (not a harness problem): report it with the plan
+                let path = format!("{}/{seed}-xbuild-{case}.json", crate::runner::replay_dir(prop));
+                let j = J::obj()
+                    .set("format", J::s("vsim-replay-1"))
+                    .set(
+                        "xbuild",
+                        J::obj()
+                            .set("exporter", J::s(build_label()))
+                            .set("importer", J::s("-"))
+                            .set("case", J::i(case))
+                            .set("seed", J::i(seed))
+                            .set("item", J::s(&item.name)),
+                    )
+                    .set("violation", J::obj().set("oracle", J::s(&format!("{prop}.xbuild.export"))).set("detail", J::s(&e)))
+                    .set("plan", plan.to_json());
+                let _ = std::fs::write(&path, j.to_string_pretty());
+                say(&format!(
+                    "xbuild violation: oracle={prop}.xbuild.export detail=the {} build cannot compile/write/observe seeded case {case}/{}: {e}",
+                    build_label(),
+                    item.name
+                ));
+                say(&format!("VIOLATION property={prop} replay={path}"));
+                return 1;
             }
             n += 1;
         }
@@ -191,6 +214,7 @@ pub fn import(
     let none = Fault::default();
     for case in cases.clone() {
         let plan = case_plan(prop, seed, case);
+        crate::hashseam::begin_plan(&plan);
         let pr = probes(&plan);
         for item in items(prop, &plan) {
             let base = format!("{dir}/{case}-{}", item.name);
